@@ -169,3 +169,44 @@ Proof.
   split; [reflexivity|]. split; [reflexivity|]. split; [reflexivity|]. split; [reflexivity|]. split; [reflexivity|].
   split; [reflexivity|]. split; [reflexivity|]. split; [reflexivity|]. right; left; reflexivity.
 Qed.
+
+(* the other half of the premise is needed too: process 0 awaits 1, 1 fails, the failure completes 0
+   in place (Worker::notify_result) — then a slice is run FOR THE FAILED PROCESS and finishes Ok
+   (in the code its frames are cleared: no slice executes), the client resumes the now "sleeping"
+   process and it parks again with the stale None entry: nothing in flight, 1 finished *)
+Definition resurrect_schedule : list sched_action :=
+  [ X (XStart false);
+    W 0 None (orc (Some 0) (d_act_ ASpawn)); E [];
+    W 0 None (orc (Some 0) (dd [] (Some (a_sel [1])) [] (Some (AAwait [1])) false None));
+    E [];
+    W 1 None (orc (Some 1) (dd [] None [] None false (Some (RErr 7))));
+    E [];
+    W 0 None (orc (Some 0) (dd [] None [] None false (Some (ROk 5))));           (* a slice of a failed process *)
+    X (XResume 0);
+    W 0 None (orc (Some 0) (dd [] (Some (a_sel [])) [] None true None)) ].
+
+Theorem parked_await_refuted_for_resurrecting_oracle :
+  exists s nd pr nd1,
+    run (init 2) resurrect_schedule = Good s /\
+    await_honest_runb (init 2) resurrect_schedule = false /\ await_honest_runb (init 2) (firstn 7 resurrect_schedule) = true /\
+    nth_error (s_nodes s) 0 = Some nd /\ mem 0 (w_selecting (n_w nd)) = true /\
+    alookup 0 (w_procs (n_w nd)) = Some pr /\ p_res pr = None /\ alookup 1 (p_awaiting pr) = Some None /\
+    nth_error (s_nodes s) 1 = Some nd1 /\ result_of (n_w nd1) 1 = Some (RErr 7) /\
+    quiescent s /\ ~ answer_in_flight s 0 1.
+Proof.
+  assert (E: exists s, run (init 2) resurrect_schedule = Good s) by (vm_compute; eexists; reflexivity).
+  destruct E as (s&E). exists s.
+  assert (Facts: exists nd pr nd1,
+    nth_error (s_nodes s) 0 = Some nd /\ mem 0 (w_selecting (n_w nd)) = true /\
+    alookup 0 (w_procs (n_w nd)) = Some pr /\ p_res pr = None /\ alookup 1 (p_awaiting pr) = Some None /\
+    nth_error (s_nodes s) 1 = Some nd1 /\ result_of (n_w nd1) 1 = Some (RErr 7) /\
+    quiescent s /\ e_pending (s_env s) = []).
+  { revert E. vm_compute. intros E. inversion E; subst s; clear E. do 3 eexists.
+    split; [reflexivity|]. split; [reflexivity|]. split; [reflexivity|]. split; [reflexivity|]. split; [reflexivity|].
+    split; [reflexivity|]. split; [reflexivity|]. split; [|reflexivity].
+    intros [|[|[|i]]] nd H; simpl in H; inversion H; subst; repeat split. }
+  destruct Facts as (nd&pr&nd1&F1&F2&F3&F4&F5&F6&F7&Q&P). exists nd, pr, nd1.
+  split; [exact E|]. split; [vm_compute; reflexivity|]. split; [vm_compute; reflexivity|].
+  split; [exact F1|]. split; [exact F2|]. split; [exact F3|]. split; [exact F4|]. split; [exact F5|]. split; [exact F6|]. split; [exact F7|].
+  split; [exact Q|]. apply no_flight_when_empty; [|exact P]. intros i x H. destruct (Q i x H) as (A&B&_). split; assumption.
+Qed.
